@@ -1,6 +1,6 @@
 (* Perform.v — perform.rs: dispatch of vte actions to Screen methods and
    Callbacks events.  Callback policy: `resizing = true` means the Callbacks
-   object's resize() calls screen.set_size(r, c) when r, c >= 1 (the harness's
+   object's resize() calls screen.set_size(r, c) when 1 <= r, c <= 512 (the harness's
    Resizing callbacks); every other callback only records. *)
 Require Import Base Utf8 Attrs Cell Row Grid Screen Vte.
 
@@ -96,7 +96,7 @@ Definition do_csi (resizing : bool) (s : screen) (ps : list (list N)) (inter : l
           let sc := gcols (cur s) in
           let r := match rest with (x :: _) :: _ => x | _ => sr end in
           let cc := match rest with _ :: (x :: _) :: _ => x | _ => sc end in
-          if resizing && (1 <=? r) && (1 <=? cc)
+          if resizing && (1 <=? r) && (r <=? 512) && (1 <=? cc) && (cc <=? 512)
           then do s1 <- screen_set_size s r cc; Ok (s1, [EResize r cc])
           else Ok (s, [EResize r cc])
         else Ok (s, [EUnhCsi None None ps c])
